@@ -18,7 +18,7 @@ from .. import common, seq
 from ..evidence import Run
 
 ALPHA = ["a", ":", " ", "\r", "\n", "\x00", "\x0b", "\x85", "\xe9", "\u20ac", "\xa0"]
-PATHS = ["first", "recall", "mutated", "write", "filewrapper", "error"]
+PATHS = ["first", "recall", "mutated", "write", "filewrapper", "error", "swallow", "recall-swallow"]
 HOP = ["connection", "keep-alive", "proxy-authenticate", "proxy-authorization", "te", "trailer", "transfer-encoding", "upgrade"]
 SERVER_LINE = {
     b"date": re.compile(rb"[A-Z][a-z]{2}, \d\d [A-Z][a-z]{2} \d{4} \d\d:\d\d:\d\d GMT\Z"),
@@ -70,6 +70,23 @@ def make_app(case):
         if path == "error":
             start_response(status, hostile)
             raise RuntimeError("application failure after start_response")
+        if path == "swallow":
+            # the application (or a middleware) catches whatever start_response raises and carries on
+            try:
+                start_response(status, hostile)
+            except Exception:
+                pass
+            return [b"x"]
+        if path == "recall-swallow":
+            start_response("200 OK", [("X-Old", "o")])
+            try:
+                raise RuntimeError("superseded")
+            except RuntimeError:
+                try:
+                    start_response(status, hostile, sys.exc_info())
+                except Exception:
+                    pass
+            return [b"x"]
         raise ValueError(path)
 
     return app
@@ -119,6 +136,32 @@ def judge(case, wire, closed, escaped, worker_exc):
         if not closed:
             v.append(("500-not-closed", "connection open after the 500"))
         return v, "500"
+    if refuse and path in ("swallow", "recall-swallow"):
+        # the refused strings must never be used: the head is the superseded
+        # clean response (recall) or whatever the server builds without them
+        hostile = [x for x in (case["status"], case["name"], case["value"]) if isinstance(x, str) and ("\r" in x or "\n" in x)]
+        for ln in lines:
+            if b"\r" in ln or b"\n" in ln:
+                break
+        allowed_status = [b"HTTP/1.1 200 OK", b"HTTP/1.1 500 Internal Server Error"]
+        st = case["status"]
+        if isinstance(st, str) and "\r" not in st and "\n" not in st:
+            try:
+                allowed_status.append(b"HTTP/1.1 " + st.encode("latin-1"))  # accepted before a later argument was refused
+            except UnicodeEncodeError:
+                pass
+        if lines[0] not in allowed_status:
+            v.append(("refused-status-emitted:" + path, f"after start_response refused its arguments the head starts with {lines[0]!r}; head={head!r}"))
+        for ln in lines[1:]:
+            k, sep, val = ln.partition(b": ")
+            rx = SERVER_LINE.get(k.lower())
+            if ln in (b"X-Old: o",) and path == "recall-swallow":
+                continue
+            if is500 and ERR_LINES.get(k.lower()) and ERR_LINES[k.lower()].match(val):
+                continue
+            if not sep or rx is None or not rx.match(val):
+                v.append(("refused-field-emitted:" + path, f"line {ln!r} emitted although start_response refused the call; head={head!r}"))
+        return v, "accepted"
     if refuse and path != "mutated":
         v.append(("hostile-accepted:" + ("crlf" if any(isinstance(x, str) and ("\r" in x or "\n" in x) for x in (case["status"], case["name"], case["value"])) else "nonstr-or-hop"),
                   f"status/header that must be refused was emitted: head={head!r}"))
@@ -136,6 +179,8 @@ def judge(case, wire, closed, escaped, worker_exc):
     rest = list(lines[1:])
     app_fields = [("X-Clean", "1")]
     optional = []
+    if path == "recall-swallow":
+        pass
     if path == "mutated":
         optional.append((case["name"], case["value"]))
     else:
